@@ -379,6 +379,25 @@ pub fn run(ctx: &Ctx) -> i32 {
         add(n, e.bytes, e.end_of_last_frame);
     }
     {
+        // trailing bytes after every chunk's payload (also after the zlib streams of compressed cels and tilesets)
+        let mut f = gen::b1();
+        for fr in f.frames.iter_mut() {
+            for ch in fr.chunks.iter_mut() {
+                ch.trailing = vec![0, 0, 0, 0];
+            }
+        }
+        let e = f.encode_full(false);
+        add("b1-trailing", e.bytes, e.end_of_last_frame);
+        let mut f = gen::b3();
+        for fr in f.frames.iter_mut() {
+            for ch in fr.chunks.iter_mut() {
+                ch.trailing = vec![0xEE; 3];
+            }
+        }
+        let e = f.encode_full(false);
+        add("b3-trailing", e.bytes, e.end_of_last_frame);
+    }
+    {
         // every payload kind larger than 64 KiB: large chunks are read in many read() calls
         let e = gen::big().encode_full(false);
         add("big", e.bytes, e.end_of_last_frame);
